@@ -1744,6 +1744,17 @@ def gen_c12_spec(rng: random.Random, depth: int) -> Dict[str, Any]:
         deps[fail_dep]["raise_open"] = True
         if rng.random() < 0.5:
             deps[fail_dep]["raise_open_exc"] = rng.choice(["TimeoutError", "asyncio.TimeoutError", "ConnectionError", "KeyError"])
+        if rng.random() < 0.5:
+            # it fails for the first message(s) only - and it is the first thing the task needs (a gate in front of the
+            # other dependencies: nothing has been opened when it fails)
+            exc_ = deps[fail_dep].pop("raise_open_exc", None)
+            deps[fail_dep].pop("raise_open")
+            fail_dep = "dgate"
+            deps["dgate"] = {"style": rng.choice(["plain_sync", "plain_async"]), "cache": True, "ctx": False, "subs": [],
+                             "raise_open": True, "raise_open_toks": rng.choice([["m0"], ["m0", "m1"], ["m1"]])}
+            if exc_:
+                deps["dgate"]["raise_open_exc"] = exc_
+            tasks["tdep"]["deps"] = ["dgate"] + list(tasks["tdep"]["deps"])
     n = rng.randint(1, 4)
     msgs = []
     t = 0.0
